@@ -364,6 +364,44 @@ func genVarHoisting(c *core.Check, emit func(prog) bool) {
 	}
 }
 
+// deep capture: a variable declared at level 0 and used d function levels below it, with every
+// subset of the intermediate levels using it too (before or after the nested function is
+// created), nested functions of three kinds, and the innermost function having a parameter and
+// a local of its own. Link chains of the scope analysis are d hops long here.
+func genDeepCapture(c *core.Check, emit func(prog) bool) {
+	kinds := [][2]string{{"function(P){", "}"}, {"(P)=>{", "}"}, {"function named_L(P){", "}"}}
+	open := func(k [2]string, l int) string {
+		return strings.ReplaceAll(strings.ReplaceAll(k[0], "_L", fmt.Sprint(l)), "P", fmt.Sprintf("p%d", l))
+	}
+	var body func(l, d, mask int, k [2]string, after bool) string
+	body = func(l, d, mask int, k [2]string, after bool) string {
+		if l == d {
+			return fmt.Sprintf("var local=p%d*2;h1('in',total,other,local,p%d);return total+local;", d, d)
+		}
+		use := ""
+		if mask>>(l-1)&1 == 1 {
+			use = fmt.Sprintf("total++;h1('l%d',total,other,p%d);", l, l)
+		}
+		inner := "(" + open(k, l+1) + body(l+1, d, mask, k, after) + k[1] + ")"
+		if after {
+			return fmt.Sprintf("var f%d=%s;%sreturn f%d(%d);", l, inner, use, l, l+1)
+		}
+		return fmt.Sprintf("%sreturn %s(%d);", use, inner, l+1)
+	}
+	for d := 2; d <= c.Pick(5, 7); d++ {
+		for mask := 0; mask < 1<<(d-1); mask++ { // which intermediate levels use the captured variables
+			for _, k := range kinds {
+				for _, after := range []bool{false, true} {
+					text := "function F(h0,h1){var total=10,other=h0();return (" + open(k, 1) + body(1, d, mask, k, after) + k[1] + ")(1)}"
+					if !emit(prog{text, "fn", false, false}) {
+						return
+					}
+				}
+			}
+		}
+	}
+}
+
 // free variables named like the names the renamer hands out first; locals must avoid them
 func genFreeNames(c *core.Check, emit func(prog) bool) {
 	first := []string{"e", "t", "n", "s", "o", "i", "a", "r", "l", "c", "u", "d", "h", "p", "f", "m", "g", "y", "b", "v", "w", "k", "x", "q", "z", "j", "_", "$", "ee", "te", "ne", "se"}
@@ -453,6 +491,44 @@ func genLargeScopes(c *core.Check, emit func(prog) bool) {
 	}
 }
 
+// with: inside a function that contains a with statement no local may be renamed, because the
+// object of the with statement could have a property of the new name. The object here HAS a
+// property for each of the renamer's first picks, holding a sentinel: a local that is renamed
+// anyway resolves to the sentinel inside the with body. Every lexical scope kind holding the
+// local x every kind of statement minified before it (the renamer's "do not rename" state is
+// saved and restored around nested functions).
+func genWith(c *core.Check, emit func(prog) bool) {
+	wobj := "var wobj={e:'E',t:'T',n:'N',i:'I',o:'O',a:'A',r:'R',s:'S',l:'L',c:'C',u:'U',d:'D',h:'H',p:'P',f:'F',m:'M'};"
+	before := []string{"", "var inc=v=>v+1;h1(inc(1));", "var sq=v=>{return v*v};h1(sq(2));", "var fe=function(v){return v-1};h1(fe(3));", "h1([1,2].map(x=>x*2));", "{let blk=4;h1(blk)}", "class K{m(v){return v}}h1(new K().m(5));",
+		"var ob={m(v){return v+2}};h1(ob.m(6));", "h1((()=>7)());", "var gen=function*(){yield 8};h1(gen().next().value);", "var af=async v=>v;h1(typeof af);"}
+	scopes := []string{
+		"for(let item of [11,12])with(wobj)h1(item,e)",
+		"for(let idx=0;idx<1;idx++){with(wobj){h1(idx,t)}}",
+		"try{throw 13}catch(error){with(wobj)h1(error,n)}",
+		"{let total=14;with(wobj)h1(total,i)}",
+		"{const fixed=15;with(wobj){h1(fixed,o)}}",
+		"var plain=16;with(wobj)h1(plain,a)",
+		"(function(param){with(wobj)h1(param,r)})(17)",
+		"(param2=>{with(wobj)h1(param2,s)})(18)",
+		"with(wobj){let inner=19;h1(inner,l)}",
+		"with(wobj){(function(deep){h1(deep,c)})(20)}",
+		"switch(1){case 1:let sw=21;with(wobj)h1(sw,u)}",
+		"class C2{m(cm){with(wobj)h1(cm,d)}}new C2().m(22)",
+	}
+	for _, b := range before {
+		for _, sc := range scopes {
+			if strings.HasPrefix(sc, "class") {
+				continue // class bodies are strict: no with
+			}
+			for _, tail := range []string{"", b} {
+				if !emit(prog{"function F(h0,h1){" + wobj + b + sc + ";" + tail + "}", "fn", false, false}) {
+					return
+				}
+			}
+		}
+	}
+}
+
 // public names: properties, labels, top-level declarations, import/export, with
 func genPublic(c *core.Check, emit func(prog) bool) {
 	scripts := []string{
@@ -499,7 +575,7 @@ func genPublic(c *core.Check, emit func(prog) bool) {
 
 // Run executes C02.
 func Run(c *core.Check) {
-	c.Rule = "scope shapes: every chain of <=2 (thorough <=3) nested scopes over 12 scope kinds (function, arrow, method, class method, generator, block, for, for-of, switch, catch, finally, if) x 9 declaration kinds per scope (var/let/const/function/class/parameter default/object and array patterns/separate assignment) x 4 naming schemes (distinct, shadowing, names equal to the renamer's first picks); every declaration has its own constant, every use site logs what it resolves to before and after the inner scope, closures are called at the end; var hoisting: 0-3 function-level var statements x 10 block shapes (if, block, for, try, catch, switch, for-of, while, nested) x 0-2 let/const x a var with 1-3 declarators in the block x 0-1 later var x every subset of the outer names used inside the block; free-variable families with globals named like generated names; one scope with N bindings for N up to 3700 (all N in thorough) with and without two-letter globals; public-name programs (properties, labels, top-level declarations, with, imports/exports) checked statically with acorn. Executed for KeepVarNames off and on. Non-trivial = renamed output differs from the name-keeping output"
+	c.Rule = "scope shapes: every chain of <=2 (thorough <=3) nested scopes over 12 scope kinds (function, arrow, method, class method, generator, block, for, for-of, switch, catch, finally, if) x 9 declaration kinds per scope (var/let/const/function/class/parameter default/object and array patterns/separate assignment) x 4 naming schemes (distinct, shadowing, names equal to the renamer's first picks); every declaration has its own constant, every use site logs what it resolves to before and after the inner scope, closures are called at the end; var hoisting: 0-3 function-level var statements x 10 block shapes (if, block, for, try, catch, switch, for-of, while, nested) x 0-2 let/const x a var with 1-3 declarators in the block x 0-1 later var x every subset of the outer names used inside the block; deep capture: a variable used 2-5 (thorough 7) function levels below its declaration x every subset of intermediate levels using it x 3 function kinds x use before/after the nested function is created; with: 11 scope kinds holding a local inside a function with a with statement whose object has a sentinel property for each of the renamer's first picks x 11 kinds of statement minified before it; free-variable families with globals named like generated names; one scope with N bindings for N up to 3700 (all N in thorough) with and without two-letter globals; public-name programs (properties, labels, top-level declarations, with, imports/exports) checked statically with acorn. Executed for KeepVarNames off and on. Non-trivial = renamed output differs from the name-keeping output"
 	c.Assumptions = []string{"V8 as engine and acorn 8.16 as parser (both from node 20)", "direct eval / Function reaching local names is outside the domain"}
 	pool, err := jsoracle.NewPool(core.Workers())
 	if err != nil {
@@ -513,7 +589,7 @@ func Run(c *core.Check) {
 	fams := []struct {
 		name string
 		gen  func(*core.Check, func(prog) bool)
-	}{{"scope-shapes", genShapes}, {"var-hoisting", genVarHoisting}, {"free-names", genFreeNames}, {"large-scopes", genLargeScopes}, {"public-names", genPublic}}
+	}{{"scope-shapes", genShapes}, {"var-hoisting", genVarHoisting}, {"deep-capture", genDeepCapture}, {"with-capture", genWith}, {"free-names", genFreeNames}, {"large-scopes", genLargeScopes}, {"public-names", genPublic}}
 	for _, f := range fams {
 		fam := f
 		type job struct {
